@@ -1125,10 +1125,17 @@ func BruteCheck(p Program, m *Model, maxAssignments int) (string, error) {
 			}
 		}
 	}
+	// Function expressions in a body can create intermediate values outside the active domain
+	// (N3 = fn:plus(N2,1), head p(N2, fn:plus(N3,1))): enumeration then cannot find the supporting
+	// instance, so a missing support is not a verdict for such programs (closedness still is).
+	hasFn := false
 	var walkT func(t gen.TermV)
 	walkT = func(t gen.TermV) {
 		if t.K == "const" {
 			addVal(*t.Val)
+		}
+		if t.K == "fn" {
+			hasFn = true
 		}
 		for _, a := range t.Args {
 			walkT(a)
@@ -1217,6 +1224,9 @@ func BruteCheck(p Program, m *Model, maxAssignments int) (string, error) {
 	for _, f := range m.All() {
 		k := f.Key()
 		if !base[k] && !supported[k] {
+			if hasFn {
+				return "", fmt.Errorf("support of %s cannot be decided by enumeration over the active domain (function expressions in rule bodies)", k)
+			}
 			return fmt.Sprintf("unsupported: %s is neither a base fact nor the head of a rule instance whose body holds", k), nil
 		}
 	}
